@@ -58,6 +58,10 @@ impl World {
     }
     fn level(&mut self) -> bool {
         self.polls += 1;
+        if self.polls > POLL_LIMIT {
+            // a wait loop that never sees the idle level: report divergence instead of spinning
+            std::panic::panic_any(Spin);
+        }
         match &mut self.busy {
             Busy::Stream { levels, pos } => {
                 let l = if *pos < levels.len() {
@@ -110,6 +114,9 @@ impl World {
 }
 
 pub type W = Rc<RefCell<World>>;
+/// polls allowed in one API call before the harness declares the call divergent
+pub const POLL_LIMIT: u64 = 20_000;
+pub struct Spin;
 
 // ---------------------------------------------------------------- SPI device
 pub struct Spi(pub W);
